@@ -225,6 +225,36 @@ def instrument_kernels():
 _KERNEL_HOOKS: dict = {}
 
 
+def peek_rng(mf):
+    """the generator object's private RandomState *without* running any code of the object (a lazily created stream
+    that does not exist yet is `None`): instance attributes only"""
+    import numpy as np
+
+    d = getattr(mf, "__dict__", {})
+    if isinstance(d.get("rng"), np.random.RandomState):
+        return d["rng"]
+    for v in d.values():
+        if isinstance(v, np.random.RandomState):
+            return v
+    return None
+
+
+def set_rng(mf, rec):
+    """install `rec` as the object's private stream: plain attribute, or — when `rng` is a read-only property over
+    a backing attribute — the instance attribute that holds the current stream"""
+    try:
+        mf.rng = rec
+        return
+    except AttributeError:
+        pass
+    cur = mf.rng
+    for k, v in list(mf.__dict__.items()):
+        if v is cur:
+            mf.__dict__[k] = rec
+            return
+    raise AttributeError("cannot install a recording stream on " + type(mf).__name__)
+
+
 def run_call(mf, shape, acs, seed, keep_values=False, forced=None, fault=None, thunk=None):
     """One real generator call with a recording private stream.  Returns a JSON-able record.
     `fault=k`: the k-th draw statement raises (exception inside the seeded scope).
@@ -237,7 +267,7 @@ def run_call(mf, shape, acs, seed, keep_values=False, forced=None, fault=None, t
     if not isinstance(mf.rng, np.random.RandomState) or type(mf.rng).__name__ != "Recorder":
         rec = Recorder()
         rec.set_state(mf.rng.get_state())   # same stream, now recording (caller is not temp_seed -> logged, cleared below)
-        mf.rng = rec
+        set_rng(mf, rec)
     rec = mf.rng
     rec.log = []
     rec.depth = 0
